@@ -9,6 +9,7 @@ use std::path::{Path, PathBuf};
 
 mod parsites;
 mod instrspec;
+mod codestart;
 
 pub fn rust_files(dir: &Path, out: &mut Vec<PathBuf>) {
     let mut entries: Vec<_> = fs::read_dir(dir).unwrap().map(|e| e.unwrap().path()).collect();
@@ -39,6 +40,7 @@ fn main() {
         let (file, text) = match what.as_str() {
             "parsites" => ("ParSites.lean", parsites::generate(&repo)),
             "instrspec" => ("InstrSpec.lean", instrspec::generate(&repo)),
+            "codestart" => ("CodeStart.lean", codestart::generate(&repo)),
             other => {
                 eprintln!("unknown target {}", other);
                 std::process::exit(2);
